@@ -31,15 +31,24 @@ impl AnalysisHost {
 
     pub fn analysis(&self) -> Analysis {
         Analysis {
+            #[cfg(tablegen_lsp_verif)]
+            _verif_guard: crate::verif_hooks::hooks()
+                .lock_acquire(crate::verif_hooks::LockId::SalsaRevision, false),
             db: self.db.snapshot(),
         }
     }
 
     pub fn set_file_content(&mut self, file_id: FileId, text: Arc<str>) {
+        #[cfg(tablegen_lsp_verif)]
+        let _verif_guard = crate::verif_hooks::hooks()
+            .lock_acquire(crate::verif_hooks::LockId::SalsaRevision, true);
         self.db.set_file_content(file_id, text);
     }
 
     pub fn set_root_file<FS: FileSystem>(&mut self, fs: &mut FS, root_file: FileId) {
+        #[cfg(tablegen_lsp_verif)]
+        let _verif_guard = crate::verif_hooks::hooks()
+            .lock_acquire(crate::verif_hooks::LockId::SalsaRevision, true);
         let source_root = file_system::collect_sources(&mut self.db, fs, root_file);
         self.db.set_source_root(Arc::new(source_root));
     }
@@ -47,6 +56,9 @@ impl AnalysisHost {
 
 pub struct Analysis {
     db: salsa::Snapshot<RootDatabase>,
+    // declared after `db`: the ghost lock is released only after the real snapshot is dropped
+    #[cfg(tablegen_lsp_verif)]
+    _verif_guard: crate::verif_hooks::Guard,
 }
 
 impl Analysis {
